@@ -192,8 +192,10 @@ def check(case, r, out):
         want9 = [str(declared_n), str(len(sg['sets'])), str(accepted)]
         got9 = [k9.get(2), k9.get(3), k9.get(4)] if k9 is not None else None
         if got9 != want9:
-            out.violate('ack', 'ak9-totals', 'group %d: AK9 totals %r, independent count %r (declared, received, accepted)' % (k + 1, got9, want9))
-            return
+            out.violate('ack', 'ak9-totals' + ('|ge-missing' if sg['ge'] is None else ''), 'group %d: AK9 totals %r, independent count %r (declared, received, accepted)' % (k + 1, got9, want9))
+            if sg['ge'] is not None:
+                return
+            continue      # the listed known finding must not hide anything else in this run
         gcode = k9.get(1)
         if (gcode == 'A') != (not group_has_error):
             out.violate('ack', 'ak9-vs-errors|%s' % ('accepted-with-errors' if gcode == 'A' else 'rejected-without-errors'),
